@@ -330,33 +330,20 @@ def everywhere_id(repo, res):
     from ..absint import Interp as _Interp, Node as _Node, Raised as _Raised
     from ..lnodes_model import load_classes as _lc
 
-    loop = None
-    for n in g.node.body:
-        if isinstance(n, ast.For) and "integral_data" in ast.unparse(n.iter):
-            loop = n
-    if loop is None:
-        raise AnalysisError("_compute_form_ir: loop over form_data.integral_data not found")
-    idx = g.node.body.index(loop)
-    pre = [st for st in g.node.body[:idx] if isinstance(st, ast.Assign) and (
-        (isinstance(st.targets[0], ast.Subscript) and ast.unparse(st.targets[0].value) == "ir"
-         and isinstance(st.targets[0].slice, ast.Constant) and st.targets[0].slice.value in ("subdomain_ids", "integral_names", "integral_domains"))
-        or (isinstance(st.targets[0], ast.Name) and st.targets[0].id == "ufcx_integral_types"))]
-    it = _Interp(repo, _lc(repo), primary="ffcx.ir.representation")
     groups = [("cell", (2, "otherwise")), ("exterior_facet", (7,)), ("cell", (5,)), ("interior_facet", ("otherwise",))]
-    fd = _Node("FormData", integral_data=[_Node("IntegralData", integral_type=t, subdomain_id=ids) for t, ids in groups])
-    env = {"form_data": fd, "ir": {}, "form_id": 0, "integral_names": {(0, k): f"name{k}" for k in range(len(groups))},
-           "integral_domains": {f"name{k}": [f"dom{k}"] for k in range(len(groups))}}
-    it.ctx.append(rep)
+    itg = [_Node("IntegralData", integral_type=t, subdomain_id=ids) for t, ids in groups]
+    it, args, _n = form_ir_sample(repo, 2, "full", itg=itg)
+    args[4] = {(5, k): f"name{k}" for k in range(len(groups))}
+    args[5] = {f"name{k}": [f"dom{k}"] for k in range(len(groups))}
+    ir_ = None
     try:
-        try:
-            it.block(pre + [loop], env)
-        except _Raised as e:
-            res.fail(key, f"_compute_form_ir raises ({e.what}) on a form with integral groups {groups}", rep.line(loop))
-            env = None
-    finally:
-        it.ctx.pop()
-    if env is not None:
-        ir_ = env["ir"]
+        out = it.call_f(g, args)
+        ir_ = out.f if isinstance(out, _Node) else None
+        if ir_ is None:
+            res.fail(key, f"_compute_form_ir returns {out!r}, not a FormIR record", rep.line(g.node))
+    except _Raised as e:
+        res.fail(key, f"_compute_form_ir raises ({e.what}) on a form with integral groups {groups}", rep.line(g.node))
+    if ir_ is not None:
         want_ids, want_names, want_doms = {}, {}, {}
         for k, (t, ids) in enumerate(groups):
             for sid in ids:
@@ -364,12 +351,12 @@ def everywhere_id(repo, res):
                 want_names.setdefault(t, []).append(f"name{k}")
                 want_doms.setdefault(t, []).append([f"dom{k}"])
         for fld, want in (("subdomain_ids", want_ids), ("integral_names", want_names), ("integral_domains", want_doms)):
-            got = {t: v for t, v in (ir_.get(fld) or {}).items() if v}
+            got = {t: list(v) for t, v in (ir_.get(fld) or {}).items() if v}
             if got != want:
-                res.fail(key, f"for integral groups {groups} ir['{fld}'] = {got}, expected {want}: every id of a group must carry that group's kernel name and domains", rep.line(loop))
+                res.fail(key, f"for integral groups {groups} FormIR.{fld} = {got}, expected {want}: every id of a group must carry that group's kernel name and domains", rep.line(g.node))
         types = list((ir_.get("subdomain_ids") or {}).keys())
         if types != ["cell", "exterior_facet", "interior_facet", "vertex", "ridge"]:
-            res.fail(key, f"integral types are keyed in the order {types}, not the ufcx.h enum order", rep.line(loop))
+            res.fail(key, f"integral types are keyed in the order {types}, not the ufcx.h enum order", rep.line(g.node))
     # analysis flag
     an = repo.mod("ffcx.analysis").func("_analyze_form")
     key = f"{an.key}:do_append_everywhere_integrals"
@@ -493,8 +480,8 @@ INTEGRAL_SLOT_SRC = {
     ["C06", "C04", "C05", "C18", "C20"],
     "for ufcx_form / ufcx_integral / ufcx_expression: every field of the struct in ufcx.h is initialised "
     "exactly once by the C template and carried as an attribute by the numba template class (no unknown "
-    "field); each slot value is computed from the like-named IR field, identically in the C and numba "
-    "generators",
+    "field), and both templates fill a field from the same slot (which IR value each slot receives: GEN-FORM, GEN-INTEGRAL, "
+    "GEN-EXPRESSION-DESC)",
     min_instances=80,
 )
 def desc_fields(repo, res):
@@ -566,46 +553,7 @@ def desc_fields(repo, res):
                     got = cmap[fld]
                     if got.strip("{}") != want and got != want:
                         res.fail(key, f"C template fills {struct}.{fld} with `{got}`, expected slot {want}", ct.rel, props=props)
-        # --- slot sources in the two generators (a field's data may sit in the `<slot>_init` array definition)
-        def by_base(srcs):
-            out = {}
-            for slot, v in srcs.items():
-                base = re.sub(r"_init$", "", slot)
-                base = {"original_coefficient_position": "original_coefficient_positions"}.get(base, base)
-                out.setdefault(base, set()).update(v)
-            return out
-
-        csrc = by_base(_slot_sources(cg))
-        nsrc = by_base(_slot_sources(ng))
-        wanted = by_base(slot_src)
-        for slot, want in wanted.items():
-            for be, srcs, g in (("C", csrc, cg), ("numba", nsrc, ng)):
-                if slot not in srcs:
-                    continue
-                key = f"{be}.{kind}:slot-source:{slot}"
-                res.ob(key)
-                got = srcs[slot]
-                if not all(any(gx == w or gx.startswith(w + ".") for gx in got) for w in want):
-                    res.fail(key, f"{be} {kind} generator computes `{slot}` from {sorted(got) or 'nothing of the IR'}; "
-                             f"it must come from {sorted(want)}", g.module.line(g.node), props=props if be == "C" else ("C18", "C20"))
-        for slot in sorted(set(csrc) & set(nsrc) & set(wanted)):
-            key = f"{kind}:sibling-slot:{slot}"
-            res.ob(key)
-            a = {x for x in csrc[slot] if any(x == w or x.startswith(w + ".") for w in wanted[slot])}
-            b = {x for x in nsrc[slot] if any(x == w or x.startswith(w + ".") for w in wanted[slot])}
-            if a != b:
-                res.fail(key, f"`{slot}` is computed from {sorted(a)} by the C generator and from {sorted(b)} by the numba generator",
-                         ng.module.line(ng.node), props=("C18", "C20"))
-        # value *expression* siblings for scalar slots (catches len(shape) vs prod(shape))
-        for slot in ("num_components", "num_points", "entity_dimension", "rank", "num_coefficients", "num_constants"):
-            ca = _slot_expr(cg, slot)
-            na = _slot_expr(ng, slot)
-            if ca is None or na is None:
-                continue
-            key = f"{kind}:sibling-expr:{slot}"
-            res.ob(key)
-            if _norm_expr(ca) != _norm_expr(na):
-                res.fail(key, f"descriptor slot `{slot}` is `{ca}` in the C backend and `{na}` in the numba backend", ng.module.line(ng.node), props=("C18", "C20"))
+        # which IR value each slot receives, in both backends: GEN-FORM / GEN-INTEGRAL / GEN-EXPRESSION-DESC (generators interpreted, emitted text read back)
 
 
 def _slot_expr(g, slot):
@@ -797,42 +745,7 @@ def kernel_sig(repo, res):
                 diff = [f"{a} vs {b}" for a, b in zip(inst, td) if a != b] or [f"{len(inst)} vs {len(td)} parameters"]
                 res.fail(key, f"kernel signature of the C {kind} template instantiated for {t} differs from ufcx.h: {'; '.join(diff[:3])}",
                          tm.rel, props=("C09", "C04", "C20") if kind == "expression" else ("C09", "C20"))
-    # generators instantiate scalar_type / geom_type from the option through the two utils functions
-    for kind in ("integral", "expression"):
-        g = repo.mod(f"ffcx.codegeneration.C.{kind}").func("generator")
-        sl = Slicer(g.node)
-
-        def slot_value(name):
-            """The expression stored into the template slot `name` (dict store or keyword of format())."""
-            for n in ast.walk(g.node):
-                if isinstance(n, ast.Assign) and isinstance(n.targets[0], ast.Subscript) and isinstance(n.targets[0].slice, ast.Constant) \
-                        and n.targets[0].slice.value == name:
-                    return n.value
-                if isinstance(n, ast.keyword) and n.arg == name:
-                    return n.value
-            return None
-
-        def through(text):
-            """Is options['scalar_type'] converted only by representation-preserving wrappers (np.dtype)?"""
-            t = text.replace(" ", "")
-            return "options['scalar_type']" in t
-
-        for slot, need_real in (("scalar_type", False), ("geom_type", True)):
-            key = f"C.{kind}:{slot}-slot"
-            res.ob(key)
-            v = slot_value(slot)
-            if v is None:
-                raise AnalysisError(f"C {kind} generator: slot {slot} not found")
-            full = sl.text(v)
-            outer_ok = isinstance(v, ast.Call) and (call_name(v) or "").endswith("dtype_to_c_type")
-            real = "dtype_to_scalar_dtype(" in full.replace(" ", "")
-            if not outer_ok or not through(full):
-                res.fail(key, f"{slot} slot is `{ast.unparse(v)}` (= {full[:80]}), not dtype_to_c_type of the scalar type option", g.module.line(v))
-            elif need_real and not real:
-                res.fail(key, f"geom_type slot is `{full[:90]}`: not the real type of the scalar type - geometry would be declared complex / read as (re, im) pairs "
-                         "for complex scalar types", g.module.line(v))
-            elif not need_real and real:
-                res.fail(key, f"scalar_type slot is `{full[:90]}`: the real part type, complex kernels would be declared real", g.module.line(v))
+    # which C types the generators instantiate {scalar_type} / {geom_type} with: GEN-INTEGRAL / GEN-EXPRESSION-DESC (generators interpreted per scalar type)
     # dtype_to_c_type table
     u = repo.mod("ffcx.codegeneration.utils")
     f = u.func("dtype_to_c_type")
